@@ -8,6 +8,7 @@ package main
 import (
 	"fmt"
 	"os"
+	"path/filepath"
 	"sort"
 	"strings"
 
@@ -144,6 +145,18 @@ func init() {
 	regScenario(&sched.Scenario{Name: "race-bootstrap", Cfg: sim.Config{Voters: 1, Spares: 1, Cold: true},
 		Steps: [][]sim.Event{api("api n1 Start", "api n1 Bootstrap:ok", "api n1 Status"), api("api n1 Configuration", "api n1 Stop", "api n1 Bootstrap:ok"), api("api n1 Start", "api n1 Bootstrap:ok")}})
 
+	// 7: a membership change is committed and applied (second reply) while the
+	// same node takes the snapshot triggered by the first reply
+	snapMem := api("timeout n0", "rt 0>1:RV#0 a=2", "rt 0>1:RV#1", "rt 0>1:AE#0", "rt 0>1:AE#1",
+		"write n0", "write n0", "api n0 Add:2:nonvoter", "deliver 0>1:AE#2", "deliver 0>1:AE#3", "deliver 0>1:AE#4")
+	regScenario(&sched.Scenario{Name: "race-snapshot-membership", Cfg: sim.Config{Voters: 2, Spares: 1, SnapAt: 2}, Prefix: snapMem,
+		Steps: [][]sim.Event{api("reply 0>1:AE#3", "reply 0>1:AE#4"), api("reply 0>1:AE#2", "api n0 Configuration")}})
+	// 8: file-backed log: compaction while requests that carry the surviving
+	// entries are still with the transport (n2 is unreachable)
+	inflight := append(append([]sim.Event{}, seedLeader3...), sim.MustParse("isolate n2", "write n0", "write n0", "write n0")...)
+	regScenario(&sched.Scenario{Name: "race-file-compact", Cfg: sim.Config{Voters: 3, SnapAt: 2, FileStore: true}, Prefix: inflight,
+		Steps: [][]sim.Event{api("rt 0>1:AE#2", "api n0 Status"), api("rt 0>1:AE#4", "write n0"), api("beat n0", "api n0 Configuration")}})
+
 	checks["C20"] = func(prop, tier string) int {
 		if !raceEnabled {
 			fmt.Println("INFRA: C20 needs the -race build (bin/check builds it)")
@@ -156,15 +169,24 @@ func init() {
 			defer os.RemoveAll(dir)
 			os.Setenv("GORACE", "halt_on_error=0 exitcode=0 suppress_equal_stacks=0 suppress_equal_addresses=0 log_path="+dir+"/race")
 		}
-		pl := []schedPlan{{"race-elect-submit", 1, 120}, {"race-snapshot", 1, 90}, {"race-membership", 1, 120}, {"race-stop", 1, 120}, {"race-install", 1, 90}, {"race-bootstrap", 1, 90}}
+		pl := []schedPlan{{"race-elect-submit", 1, 120}, {"race-snapshot", 1, 90}, {"race-membership", 1, 120}, {"race-stop", 1, 120}, {"race-install", 1, 90}, {"race-bootstrap", 1, 90}, {"race-snapshot-membership", 2, 120}, {"race-file-compact", 1, 90}}
 		if tier == "thorough" {
-			pl = []schedPlan{{"race-elect-submit", 2, 600}, {"race-snapshot", 2, 400}, {"race-membership", 2, 600}, {"race-stop", 2, 600}, {"race-install", 2, 400}, {"race-bootstrap", 2, 300}}
+			pl = []schedPlan{{"race-elect-submit", 2, 600}, {"race-snapshot", 2, 400}, {"race-membership", 2, 600}, {"race-stop", 2, 600}, {"race-install", 2, 400}, {"race-bootstrap", 2, 300}, {"race-snapshot-membership", 3, 600}, {"race-file-compact", 2, 400}}
 		}
 		return schedCheck(prop, tier, pl, map[string]any{"race_detector": "go build -race; hand-offs via //go:norace spin gates"})
 	}
 }
 
 type monitorList struct{}
+
+var schedDirSeq int
+
+func init() {
+	sched.ScratchDir = func() string {
+		schedDirSeq++
+		return filepath.Join(scratchDir(), fmt.Sprintf("verif-sched.%d.%d", os.Getpid(), schedDirSeq))
+	}
+}
 
 func scratchDir() string {
 	if st, err := os.Stat("/dev/shm"); err == nil && st.IsDir() {
